@@ -495,32 +495,47 @@ def repeat_case(seed, idx, tier):
     plan = [f for f in scenario.gen_fault_plan(rng, sA, _nevals(base), 0, allow_linalg=False) if f["kind"] != "cache_off"]
     sA2, how = force_ending(rng, sA, base)
     st["forced." + how] += 1
-    # the very first call of this (freshly forked) process was `base`; now A under faults, B, then A again
-    r1 = run_client(sA, plan)
-    cr.account(r1, nontrivial_needs_fault=bool(plan))
-    rb = run_client(sB, [])
-    cr.account(rb)
-    r2 = run_client(sA, plan)
-    cr.account(r2)
-    r3 = run_client(sA, plan, use_probes=False)
-    cr.account(r3)
-    rf_ = run_client(sA2, plan)
-    cr.account(rf_)
-    r4 = run_client(sA, [])
-    cr.account(r4)
-    if any(r.harness_error for r in (r1, r2, r3, rb, rf_, r4)):
+    # the very first call of this (freshly forked) process was `base`; now A under faults, B, then A again.
+    # Every record (and with it every user object of that call: callback, constraint functions, arrays) is
+    # dropped before the next call, as a caller's temporaries would be, so that state the library keeps about
+    # dead objects (e.g. keyed by id) meets new objects at the same addresses.
+    import gc
+    if sA.get("callback") and rng.chance(0.6):
+        other = {"partial": "partialkw", "partialkw": "partial", "obj": "objkw", "objkw": "obj", "pos": "kw",
+                 "kw": "pos", "lambda": "kw", "posdefault": "kw"}[sA["callback"]["style"]]
+        sB["callback"] = {"style": other, "mutate": False, "stop_at": None}
+    base_digest = base.digest()
+    del base
+    gc.collect()
+
+    def once(stmt_, plan_, **kw):
+        r = run_client(stmt_, plan_, **kw)
+        cr.account(r, nontrivial_needs_fault=bool(plan_))
+        out = (r.harness_error, None if r.harness_error else r.digest(),
+               [] if r.harness_error else W.c11b(r, st), r.stmt, r.faults)
+        del r
+        gc.collect()
+        return out
+
+    r1 = once(sA, plan)
+    rb = once(sB, [])
+    r2 = once(sA, plan)
+    r3 = once(sA, plan, use_probes=False)
+    rf_ = once(sA2, plan)
+    r4 = once(sA, [])
+    if any(r[0] for r in (r1, r2, r3, rb, rf_, r4)):
         return cr
     st["c11.a_repeats"] += 1
     pay = {"engine": "repeat", "stmt": sA, "faults": plan, "between": sB, "forced": sA2}
-    if r1.digest() != r2.digest():
+    if r1[1] != r2[1]:
         cr.add_viols([Viol("C11", "a", "repeating a call after another call gives a different run", key="repeat_differs")], pay)
-    if r1.digest() != r3.digest():
+    if r1[1] != r3[1]:
         cr.add_viols([Viol("C11", "a", "the run differs with and without the read-only probes", key="probe_perturbs")], pay)
-    if base.digest() != r4.digest():
+    if base_digest != r4[1]:
         cr.add_viols([Viol("C11", "a", "the first call of the process and the same call made after four other calls "
                            "differ", key="history_dependent")], pay)
     for r in (r1, rb, rf_):
-        cr.add_viols(W.c11b(r, st), {"engine": "args", "stmt": r.stmt, "faults": r.faults})
+        cr.add_viols(r[2], {"engine": "args", "stmt": r[3], "faults": r[4]})
     cr.sample = {"stmt": sA, "faults": plan}
     return cr
 
@@ -602,21 +617,30 @@ def replay(p):
     if eng == "args":
         return W.c11b(run_client(p["stmt"], p["faults"]), st)
     if eng == "repeat":
-        base = run_client(p["stmt"], [])
-        r1 = run_client(p["stmt"], p["faults"])
+        import gc
+
+        def dig(stmt_, plan_, **kw):
+            r = run_client(stmt_, plan_, **kw)
+            d = r.digest()
+            del r
+            gc.collect()
+            return d
+
+        base = dig(p["stmt"], [])
+        r1 = dig(p["stmt"], p["faults"])
         if p.get("between"):
-            run_client(p["between"], [])
-        r2 = run_client(p["stmt"], p["faults"])
-        r3 = run_client(p["stmt"], p["faults"], use_probes=False)
+            dig(p["between"], [])
+        r2 = dig(p["stmt"], p["faults"])
+        r3 = dig(p["stmt"], p["faults"], use_probes=False)
         if p.get("forced"):
-            run_client(p["forced"], p["faults"])
-        r4 = run_client(p["stmt"], [])
+            dig(p["forced"], p["faults"])
+        r4 = dig(p["stmt"], [])
         out = []
-        if r1.digest() != r2.digest():
+        if r1 != r2:
             out.append(Viol("C11", "a", "repeating a call gives a different run", key="repeat_differs"))
-        if r1.digest() != r3.digest():
+        if r1 != r3:
             out.append(Viol("C11", "a", "the run differs with and without the read-only probes", key="probe_perturbs"))
-        if base.digest() != r4.digest():
+        if base != r4:
             out.append(Viol("C11", "a", "the first call of the process and the same call made later differ",
                             key="history_dependent"))
         return out
